@@ -97,6 +97,8 @@ impl Region {
             let abs_offset = region_start + offset;
             let slice = unsafe { std::slice::from_raw_parts_mut(ptr.add(abs_offset), value_len) };
             write_fn(&value, slice);
+            #[cfg(feature = "verif")]
+            crate::verif::tap(crate::verif::Event::MmapWrite { file: crate::verif::FileKind::Data, off: abs_offset, len: value_len });
             dirty_start = dirty_start.min(offset);
             dirty_end = dirty_end.max(end_offset);
         }
@@ -360,6 +362,8 @@ impl Region {
                 self.restore_dirty_bounds(min, max);
                 return Err(e.into());
             }
+            #[cfg(feature = "verif")]
+            crate::verif::tap(crate::verif::Event::FlushAsync { file: crate::verif::FileKind::Data, off: region_start + min, len: max - min });
             true
         } else {
             false
@@ -372,6 +376,8 @@ impl Region {
         // but before data sync, metadata could reference unwritten data.
         if data_flushed || meta_flushed {
             db.file().sync_data()?;
+            #[cfg(feature = "verif")]
+            crate::verif::tap(crate::verif::Event::Sync { file: crate::verif::FileKind::Data });
             regions.sync_data()?;
         }
 
